@@ -10,6 +10,7 @@ CONSTANTS
   FixStats = FALSE
   AtomicAdd = TRUE
   TakeRegistry = TRUE
+  DrainLatchFirst = TRUE
   Det = FALSE
 POSTCONDITION TraceReport
 CHECK_DEADLOCK FALSE
